@@ -125,6 +125,10 @@ Spans of submodels differ:
             span=span, dtype=dtype, default_value=default_value, **initial_values
         )
 
+        # Register the attributes set above (ahead of the container's own
+        # initialisation) so that they remain assignable with `strict=True`
+        self.__dict__['_attributes'].extend(['submodels', 'name'])
+
         # Copy the class-level lists: instances must not share (mutable) state
         # with the class or with each other
         self.add_attribute('endogenous', list(self.ENDOGENOUS))
